@@ -15,8 +15,12 @@ RULE = ('genomes of 1..4 chromosomes (sizes 1..S; names where one is a prefix of
         'non-trivial = at least two included chromosomes and some entry touches a chromosome end '
         '(start 0 or stop = size), or a chromosome between others has no entries')
 EXHAUSTIVE = {'quick': False, 'thorough': False}
-TIE = ('correspondence: Model/C10.v (global offsets, searchsorted, slicing of global arrays, streamed per-chromosome '
-       'walk) evaluated in Coq on the same genome and entries as the public API')
+TIE = 'translator+correspondence'
+TIE_DETAIL = ('translator: translate/gen_c10.py regenerates Gen/C10.v (41 definitions: GlobalOffset bounds checks / offsets / '
+              'searchsorted-1, get_windows flanks, clip, extend_to_size, get_location, merged gap/shift) on every run and '
+              'Bridge/C10.v proves them equal to the named helpers of Model/C10.v and the model functions equal to those '
+              'helpers put together (theorem C10_source_tie); correspondence: the whole model evaluated in Coq on the same '
+              'genome and entries as the public API')
 ASSUMPTIONS = ['single-contig kernels get_pileup / get_boolean_mask / merge_intervals are modelled by coverage counting '
                'and the running-maximum merge (their correctness is property C08); npstructures run-length arrays are '
                'read through to_array()',
@@ -106,7 +110,12 @@ def _ops_for(rng, genome, filt, es, es_all, shuffled, locs, tier):
             continue            # Geometry always builds its context with the ignore-underscore default
         add(['pileup', geo], base)
         add(['mask', geo], base)
-        add(['clip', geo], [[c, s - rng.choice([0, 1, 2]), t + rng.choice([0, 1, 2]), f] for c, s, t, f in base])
+        wide = [[c, s - rng.choice([0, 1, 2]), t + rng.choice([0, 1, 2]), f] for c, s, t, f in base]
+        if geo and base:
+            # Geometry.clip also pulls an interval lying entirely outside its chromosome back into [0, size]
+            c = rng.choice(base)[0]
+            wide.append([c, genome[c][1] + 1, genome[c][1] + 3, 1] if rng.random() < 0.5 else [c, -3, -1, 1])
+        add(['clip', geo], wide)
         add(['extend', geo, rng.choice([1, 2, 3, 5])], base)
         add(['sorted', geo], base)
         srt = es if geo else es_all
@@ -370,8 +379,8 @@ def _op_term(op):
         return '(OLocation %s %s)' % (cbool(op[1]), cz(op[2]))
     if k == 'windows':
         if op[1] == 'flank':
-            return '(OWindows %s %s)' % (cz(op[2]), cz(op[2] + 1))
-        return '(OWindows %s %s)' % (cz(op[2] // 2), cz(op[2] // 2 + op[2] % 2))
+            return '(OWindows (m_flank_l %s) (m_flank_r %s))' % (cz(op[2]), cz(op[2]))
+        return '(OWindows (m_wsize_l %s) (m_wsize_r %s))' % (cz(op[2]), cz(op[2]))
     if k == 'locsorted':
         return 'OLocSorted'
     if k == 'extract':
